@@ -2,7 +2,9 @@
 from .. import sym
 from ..evalfn import SELF
 from ..sym import canon
+from . import backtest_rules
 from .algo_equiv import check_equiv
+from .c13 import OR_REF
 from .common import ALGOS, short
 
 RUNPERIOD_REF = '''
@@ -205,3 +207,7 @@ def run(chk):
         check_equiv(chk, "C12.R3", ALGOS, cls, m, src, "state-machine", "%s: %s" % (cls, what))
     for cls, src in INIT_REFS.items():
         check_equiv(chk, "C12.R3", ALGOS, cls, "__init__", src, "initial-state", "%s starts from the documented initial state" % cls, ignore_fields=("_name",))
+    # premises of the schedulers that live elsewhere: combined with Or every scheduler is consulted on every date (stateful
+    # counters step), and the synthetic pre-start row that index 0 stands for is always there
+    check_equiv(chk, "C12.R3", ALGOS, "Or", "__call__", OR_REF, "or-consults-every-scheduler", "schedulers combined with Or are each consulted on every date (no short-circuit), so counting schedulers keep counting")
+    backtest_rules.process_data(chk, "C12")
